@@ -222,6 +222,10 @@ fn deep_module(kind: &str) -> Vec<u8> {
     m.finish()
 }
 
+pub fn deep_module_pub(kind: &str) -> Vec<u8> {
+    deep_module(kind)
+}
+
 pub const DEEP_KINDS: &[&str] = &[
     "blocks",
     "loops",
